@@ -77,6 +77,10 @@ ADD = {
  "C15": (" In-process stubs come in three legal v3 signature shapes and as classes derived from a class of the opposite kind that was started earlier.", ""),
  "C17": (" The rt_strict run must end with the too-slow error iff the non-strict run of the same scenario has a too-slow report (DetTrace clause).", ""),
  "C18": (" The entity sets are handed over in several container shapes, including ONE list object as source and destination set.", ""),
+ "C14": (" Failures at a request that mosaik passes on FOR ANOTHER simulator (an agent's asynchronous get_data) are planned as well. The World's life cycle - start / group / connect / run / shutdown in any order, each public call with its outcome - is specified in WorldLife.tla (no simulator is ever stopped twice, closed loop <=> every started simulator stopped exactly once, a refused call changes nothing, at most one run): model-checked, its whole state graph (42.6k transitions) replayed on the real World and every recorded call validated by WorldLifeTrace.tla; reported as drift only.",
+         " + TLC model checking of WorldLife.tla with graph-covering replay into the real World and WorldLifeTrace validation"),
+ "C16": (" The sibling requests get_progress / get_related_entities are specified as the information-request layer IR_* of MosaikRef (progress bounded from the observable history as of the last completed step, entity graph = created entities and connected pairs) and judged on every execution whose scripted simulators issue them; reported as drift only. The connection that carries the asynchronous requests may be time-shifted as well.", ""),
+ "C02": (" Initial events at later times and several per simulator (World.set_initial_event) are part of the scenario model; in-process simulators with generator-style step() (shipped LocalProxy) are one profile.", ""),
  "C10": (" One profile runs in real-time mode with consumers slower than real time and simulators that declare set_events.", ""),
 }
 for _pid, (_t, _k) in ADD.items():
